@@ -98,11 +98,26 @@ fn main() {
     let (c, a) = match (fs::read_to_string(&cfg), fs::read_to_string(&adf)) {
         (Ok(c), Ok(a)) => (c, a),
         _ => {
+            fs::write(Path::new(&out_dir).join("sites.rs"), "pub const HANDLER_SITES: &[(&str, usize)] = &[];\n").unwrap();
             fs::write(&dest, "").unwrap();
             fs::write(Path::new(&out_dir).join("bound.rs"), "pub const UNBOUND: Option<&str> = Some(\"server sources not readable\");\npub const ITEMS: &[&str] = &[];\n").unwrap();
             return;
         }
     };
+    // the thread bodies of the harness are typed copies of three expressions of the handlers; count their occurrences
+    // in the handler source (white space removed) so that the evidence can say whether they are still what the handlers do
+    let squeezed: String = a.chars().filter(|ch| !ch.is_whitespace()).collect();
+    let sites = [
+        ("admission test of solve: app_state.currently_running.lock().unwrap().contains(&running_info)", "app_state.currently_running.lock().unwrap().contains(&running_info)"),
+        ("listing: AdfProblemInfo::from_adf_prob_and_tasks(adf_problem, &app_state.currently_running.lock().unwrap())", "AdfProblemInfo::from_adf_prob_and_tasks(adf_problem,&app_state.currently_running.lock().unwrap()"),
+        ("blocking task: let _running_guard = RunningGuard::new(app_state, running_info);", "let_running_guard=RunningGuard::new(app_state,running_info);"),
+    ];
+    let mut site_text = String::from("pub const HANDLER_SITES: &[(&str, usize)] = &[");
+    for (what, pat) in sites {
+        site_text.push_str(&format!("({:?}, {}), ", what, squeezed.matches(pat).count()));
+    }
+    site_text.push_str("];\n");
+    fs::write(Path::new(&out_dir).join("sites.rs"), site_text).unwrap();
     let mut found = Vec::new();
     let mut text = String::new();
     text.push_str(&extract(&c, &["enum Task", "struct RunningInfo", "impl RunningInfo", "impl Task", "impl * for RunningInfo", "impl * for Task"], &mut found));
